@@ -612,7 +612,9 @@ htp_status_t htp_mpart_part_handle_data(htp_multipart_part_t *part, const unsign
     // is the epilogue part or some other part (in case of evasion attempt). For that reason we
     // will keep all its data in the part_data_pieces structure. If it ends up not being the
     // epilogue, this structure will be cleared.
-    if ((part->parser->multipart.flags & HTP_MULTIPART_SEEN_LAST_BOUNDARY) && (part->type == MULTIPART_PART_UNKNOWN)) {
+    // (In data mode the data is stored below; do not store it twice.)
+    if ((part->parser->multipart.flags & HTP_MULTIPART_SEEN_LAST_BOUNDARY) && (part->type == MULTIPART_PART_UNKNOWN)
+            && (part->parser->current_part_mode == MODE_LINE)) {
         bstr_builder_append_mem(part->parser->part_data_pieces, data, len);
     }
 
